@@ -39,6 +39,8 @@ for d in sorted(glob.glob(os.path.join(ROOT, "seeded", "*"))):
         sigs = ", ".join(f"`{s[0]}`" for s in v.get("new_signatures", [])[:2])
         res.append(f"{c}: {'caught' if v.get('rc') == 1 else 'NOT caught'} {sigs}")
     note = m.get("strengthening_note", "")
+    if ev and ev.get("patch_applies") is False:
+        res.append("patch no longer applies to the current HEAD (see note)")
     rows.append(f"| {os.path.basename(d)} | {m.get('summary','')[:220].replace('|','/')} | {m.get('needs','')[:200].replace('|','/')} | {'; '.join(res)} {note} |")
 text12 = "| id | change | needs to manifest | result of the property's quick tier on the changed tree |\n|---|---|---|---|\n" + "\n".join(rows) + "\n"
 
